@@ -24,7 +24,7 @@ Inductive rhs :=
 | RCompare (l : atom) (op : bytes) (r : atom)    (* $(if [ "l" op "r" ]; then echo 1; else echo 0; fi) *)
 | RLogical (l : atom) (op : logop) (r : atom)    (* $(if [ "l" -eq "1" ] && [ "r" -eq "1" ]; then echo 1; else echo 0; fi) *)
 | RNewSlice                                      (* _dv${_dvc} *)
-| RSliceEval (name idx : atom)                   (* $(eval "echo \${name[idx]}") *)
+| RSliceEval (name idx : atom)                   (* $(eval "printf '%s' \"\${name[idx]}\"") *)
 | RSliceLen (name : atom)                        (* $(eval "echo \${#name[@]}") *)
 | RStrLen (h : bytes)                            (* ${#h} *)
 | RCapture (calls : list (bytes * list bytes))   (* $(p a b | q c) : names and already quoted arguments *)
@@ -39,6 +39,15 @@ Definition binop_text (op : binop) : bytes :=
 Definition logop_text (op : logop) : bytes := match op with LAnd => bs "&&" | LOr => bs "||" end.
 
 Definition q := [34].   (* the double quote *)
+
+(* deferExpansion: a backslash before every dollar, for text embedded in a string handed to eval *)
+Fixpoint defer_exp (b : bytes) : bytes :=
+  match b with
+  | [] => []
+  | c :: r => if c =? 36 then 92 :: 36 :: defer_exp r else c :: defer_exp r
+  end.
+
+Definition printf_n := bs "printf '%s\n' ".     (* printf '%s\n'<blank> *)
 
 Definition render_calls (calls : list (bytes * list bytes)) : bytes :=
   join (bs " | ") (map (fun c => fst c ++ (match snd c with [] => [] | _ => [32] end) ++ join [32] (snd c)) calls).
@@ -55,7 +64,7 @@ Definition render_rhs (r : rhs) : bytes :=
       bs "$(if [ " ++ q ++ render_atom l ++ q ++ bs " -eq " ++ q ++ bs "1" ++ q ++ bs " ] " ++ logop_text op ++ bs " [ "
       ++ q ++ render_atom r ++ q ++ bs " -eq " ++ q ++ bs "1" ++ q ++ bs " ]; then echo 1; else echo 0; fi)"
   | RNewSlice => bs "_dv${_dvc}"
-  | RSliceEval n i => bs "$(eval " ++ q ++ bs "echo \${" ++ render_atom n ++ bs "[" ++ render_atom i ++ bs "]}" ++ q ++ bs ")"
+  | RSliceEval n i => bs "$(eval " ++ q ++ bs "printf '%s' " ++ [92; 34] ++ bs "\${" ++ render_atom n ++ bs "[" ++ render_atom i ++ bs "]}" ++ [92; 34] ++ q ++ bs ")"
   | RSliceLen n => bs "$(eval " ++ q ++ bs "echo \${#" ++ render_atom n ++ bs "[@]}" ++ q ++ bs ")"
   | RStrLen h => bs "${#" ++ h ++ bs "}"
   | RCapture calls => bs "$(" ++ render_calls calls ++ bs ")"
@@ -96,7 +105,7 @@ Inductive line :=
 | LDone
 | LBreak
 | LContinue
-| LEcho (text : bytes)                          (* echo "text" *)
+| LEcho (text : bytes)                          (* printf '%s\n' "text" *)
 | LExit1
 | LNop
 | LDvcIncr                                      (* _dvc=$((${_dvc}+1)) *)
@@ -104,9 +113,9 @@ Inductive line :=
 | LSsh (v a b : atom)                           (* _ssh "v" a b *)
 | LCall (name : bytes) (args : list atom)       (* name "a" "b" *)
 | LPipeline (calls : list (bytes * list bytes))
-| LRead (prompt : atom) (h : bytes)             (* read[ -p "prompt"] h *)
+| LRead (prompt : atom) (h : bytes)             (* IFS= read -r[ -p "prompt"] h *)
 | LSch (dst : bytes) (src : atom)               (* _sch dst src *)
-| LEvalWrite (content : atom) (redir : atom) (path : atom).   (* eval "echo \"content\" redir \"path\"" *)
+| LEvalWrite (content : atom) (redir : atom) (path : atom).   (* eval "printf .. \"content\" redir \"path\"", dollars deferred *)
 
 Definition dec_nat (n : nat) : bytes := dec_N (N.of_nat n).
 
@@ -134,18 +143,18 @@ Definition render_line (l : line) : bytes :=
   | LDone => bs "done"
   | LBreak => bs "break"
   | LContinue => bs "continue"
-  | LEcho t => bs "echo " ++ q ++ t ++ q
+  | LEcho t => printf_n ++ q ++ t ++ q
   | LExit1 => bs "exit 1"
   | LNop => bs ": # No operation"
   | LDvcIncr => bs "_dvc=$((${_dvc}+1))"
   | LEvalArray n vals =>
-      bs "eval " ++ q ++ render_atom n ++ bs "=(" ++ join [32] (map (fun v => bq ++ render_atom v ++ bq) vals) ++ bs ")" ++ q
+      bs "eval " ++ q ++ render_atom n ++ bs "=(" ++ join [32] (map (fun v => bq ++ defer_exp (render_atom v) ++ bq) vals) ++ bs ")" ++ q
   | LSsh v a b => bs "_ssh " ++ q ++ render_atom v ++ q ++ [32] ++ render_atom a ++ [32] ++ render_atom b
   | LCall n args => n ++ [32] ++ join [32] (map (fun a => q ++ render_atom a ++ q) args)
   | LPipeline calls => render_calls calls
-  | LRead p h => bs "read" ++ (match render_atom p with [] => [] | t => bs " -p " ++ q ++ t ++ q end) ++ [32] ++ h
+  | LRead p h => bs "IFS= read -r" ++ (match render_atom p with [] => [] | t => bs " -p " ++ q ++ t ++ q end) ++ [32] ++ h
   | LSch d s => bs "_sch " ++ d ++ [32] ++ render_atom s
-  | LEvalWrite c r p => bs "eval " ++ q ++ bs "echo " ++ bq ++ render_atom c ++ bq ++ [32] ++ render_atom r ++ [32] ++ bq ++ render_atom p ++ bq ++ q
+  | LEvalWrite c r p => bs "eval " ++ q ++ bs "printf '%s\\n' " ++ bq ++ defer_exp (render_atom c) ++ bq ++ [32] ++ render_atom r ++ [32] ++ bq ++ defer_exp (render_atom p) ++ bq ++ q
   end.
 
 (* Dump(): lines joined by newlines, with a terminating newline *)
